@@ -780,9 +780,11 @@ func (r *rw) rangeStmt(x *ast.RangeStmt, label string) ast.Stmt {
 
 func (r *rw) assign(x *ast.AssignStmt) (pre []ast.Stmt, out ast.Stmt) {
 	realCall := false
-	for _, e := range x.Rhs {
+	callRhs := make([]bool, len(x.Rhs))
+	for i, e := range x.Rhs {
 		if r.hasRealCall(e) {
 			realCall = true
+			callRhs[i] = true
 		}
 	}
 	// comma-ok map read
@@ -812,12 +814,22 @@ lhs:
 	if len(hooks) > 0 {
 		// evaluate right-hand sides that perform calls first, so that the hook sits next to the store
 		if realCall && x.Tok != token.DEFINE && len(x.Lhs) == len(x.Rhs) {
-			var tmps []ast.Expr
-			for range x.Rhs {
-				tmps = append(tmps, id(r.tmp()))
+			// only the right-hand sides that perform calls move into temporaries (others may be
+			// untyped constants / nil that need the assignment's context)
+			var tl, tr []ast.Expr
+			nr := make([]ast.Expr, len(x.Rhs))
+			for i, e := range x.Rhs {
+				if callRhs[i] {
+					t := id(r.tmp())
+					tl = append(tl, t)
+					tr = append(tr, e)
+					nr[i] = t
+				} else {
+					nr[i] = e
+				}
 			}
-			pre = append(pre, &ast.AssignStmt{Lhs: tmps, Tok: token.DEFINE, Rhs: x.Rhs})
-			x.Rhs = append([]ast.Expr{}, tmps...)
+			pre = append(pre, &ast.AssignStmt{Lhs: tl, Tok: token.DEFINE, Rhs: tr})
+			x.Rhs = nr
 		} else if realCall && x.Tok != token.DEFINE && len(x.Rhs) == 1 {
 			var tmps []ast.Expr
 			for range x.Lhs {
